@@ -84,7 +84,26 @@ pub fn cases(rng: &mut Rng, count: usize, tier: &str) -> Vec<Case> {
         o.roots_eighths = 6;
         o.max_records = 4;
         let mut tags = vec![];
-        let (w, f) = world::gen_world_custom(rng, o, &mut tags, 4);
+        if out.is_empty() {
+            // the first case of every run: sets of more than 30 members (beyond the inline capacity of the id groups)
+            o.min_terms = 34;
+            o.max_terms = 40;
+            tags.push("large_sets");
+        }
+        let (w, f) = if out.is_empty() {
+            // (a plain world that builds: the point of this case is the size of its sets)
+            o.roots_eighths = 8;
+            loop {
+                let mut t2 = vec![];
+                let (w, f) = world::gen_world(rng, o, &mut t2);
+                if matches!(w.build(), Some(world::Built { result: Ok(_), .. })) {
+                    tags.extend(t2);
+                    break (w, f);
+                }
+            }
+        } else {
+            world::gen_world_custom(rng, o, &mut tags, 4)
+        };
         let bl = w.build();
         let ids = f.ids();
         let mut universe: BTreeSet<u32> = ids.iter().copied().collect();
